@@ -32,33 +32,33 @@ def custom(mod, assumptions=None):
 
 
 PROPS = {
-    "C01": prog("hist", HIST3, q(4, 3000, 120), t(5, 40000, 200, 120), assumptions=COMMON_ASSUME),
-    "C02": prog("hist", HIST3, q(4, 3000, 120), t(5, 40000, 200, 120), assumptions=COMMON_ASSUME),
-    "C03": prog("hist", HIST3, q(4, 3000, 100), t(5, 40000, 160, 120), assumptions=COMMON_ASSUME),
-    "C04": prog("hist", HIST3, q(4, 3000, 120), t(5, 40000, 200, 120), assumptions=COMMON_ASSUME),
-    "C05": prog("hist", HIST3, q(4, 3000, 120), t(5, 40000, 200, 120), assumptions=COMMON_ASSUME),
-    "C06": prog("hist", HIST3, q(4, 3000, 120), t(5, 40000, 200, 120), assumptions=COMMON_ASSUME),
-    "C07": prog("hist", HIST3, q(4, 3000, 120), t(5, 40000, 200, 120), assumptions=COMMON_ASSUME),
+    "C01": prog("hist", HIST3, q(5, 8000, 120), t(5, 40000, 200, 120), assumptions=COMMON_ASSUME),
+    "C02": prog("hist", HIST3, q(5, 8000, 120), t(5, 40000, 200, 120), assumptions=COMMON_ASSUME),
+    "C03": prog("hist", HIST3, q(5, 8000, 100), t(5, 40000, 160, 120), assumptions=COMMON_ASSUME),
+    "C04": prog("hist", HIST3, q(5, 8000, 120), t(5, 40000, 200, 120), assumptions=COMMON_ASSUME),
+    "C05": prog("hist", HIST3, q(5, 8000, 120), t(5, 40000, 200, 120), assumptions=COMMON_ASSUME),
+    "C06": prog("hist", HIST3, q(5, 8000, 120), t(5, 40000, 200, 120), assumptions=COMMON_ASSUME),
+    "C07": prog("hist", HIST3, q(5, 8000, 120), t(5, 40000, 200, 120), assumptions=COMMON_ASSUME),
     "C08": dict(kind="prog", parts=[dict(target="hist", configs=HIST3),
                                    dict(target="comp", configs=["base", "dbg"],
-                                        quick=dict(shards=3, cases=6000, size=80),
+                                        quick=dict(shards=5, cases=12000, size=80),
                                         thorough=dict(shards=6, cases=80000, size=80))],
-                quick=q(4, 3000, 100), thorough=t(5, 40000, 160, 120), assumptions=COMMON_ASSUME),
+                quick=q(5, 8000, 100), thorough=t(5, 40000, 160, 120), assumptions=COMMON_ASSUME),
     "C09": dict(kind="prog", parts=[dict(target="comp", configs=["base", "dbg"])],
                 probes=dict(glob="targets/probes/*.cpp", configs=["base"]),
-                quick=q(6, 8000, 80), thorough=t(8, 100000, 80, 120), assumptions=COMMON_ASSUME),
+                quick=q(8, 16000, 80), thorough=t(8, 100000, 80, 120), assumptions=COMMON_ASSUME),
     "C10": dict(kind="prog", parts=[dict(target="cont", configs=["base", "dbg"])], extra=nodesizes.sweep,
                 rule=">= 1 cross-allocator copy/move assignment, swap or allocator-extended copy while both containers "
                      "are non-empty and >= 20 insertions; for the generated-source node-size sweep every (container, "
                      "size, alignment) triple is a case, non-trivial if the size is not a multiple of 8.",
-                quick=q(6, 3000, 80), thorough=t(8, 40000, 80, 120), assumptions=COMMON_ASSUME),
+                quick=q(8, 6000, 80), thorough=t(8, 40000, 80, 120), assumptions=COMMON_ASSUME),
     "C11": dict(kind="prog", parts=[dict(target="obj", configs=["base", "dbg"])],
-                quick=q(6, 4000, 30), thorough=t(8, 60000, 30, 120), assumptions=COMMON_ASSUME),
+                quick=q(8, 10000, 30), thorough=t(8, 60000, 30, 120), assumptions=COMMON_ASSUME),
     "C20": dict(kind="prog", parts=[dict(target="obj", configs=["base", "dbg"])],
-                quick=q(6, 3000, 24), thorough=t(8, 40000, 24, 120), assumptions=COMMON_ASSUME),
-    "C12": prog("hist", HIST3, q(4, 3000, 100), t(5, 40000, 160, 120), assumptions=COMMON_ASSUME),
+                quick=q(8, 8000, 24), thorough=t(8, 40000, 24, 120), assumptions=COMMON_ASSUME),
+    "C12": prog("hist", HIST3, q(5, 8000, 100), t(5, 40000, 160, 120), assumptions=COMMON_ASSUME),
     "C13": dict(kind="prog", parts=[dict(target="thr", configs=["base", "dbg"])],
-                quick=q(5, 1500, 40), thorough=t(8, 20000, 40, 60), assumptions=COMMON_ASSUME),
+                quick=q(8, 3000, 40), thorough=t(8, 20000, 40, 60), assumptions=COMMON_ASSUME),
     "C14": dict(kind="prog", parts=[dict(target="thr", configs=["base", "dbg", "tsm1"])],
                 quick=q(6, 2500, 60), thorough=t(8, 40000, 60, 0), assumptions=COMMON_ASSUME),
     "C15": prog("hist", ["base", "dbg"], q(5, 3000, 100), t(8, 40000, 120, 120), assumptions=COMMON_ASSUME),
@@ -66,8 +66,8 @@ PROPS = {
     "C16": prog("hist", ["base", "dbg"], q(6, 2500, 100), t(8, 10000, 160, 120), assumptions=COMMON_ASSUME),
     "C17": dict(kind="prog", parts=[dict(target="hist", configs=["base", "dbg"]),
                                    dict(target="fence", configs=["base", "dbg", "dbg16"],
-                                        quick=dict(shards=2, cases=20000, size=24),
+                                        quick=dict(shards=4, cases=30000, size=24),
                                         thorough=dict(shards=5, cases=300000, size=24))],
-                quick=q(4, 3000, 100), thorough=t(6, 30000, 160, 120), assumptions=COMMON_ASSUME),
-    "C18": prog("hist", HIST3, q(4, 3000, 100), t(5, 40000, 160, 120), assumptions=COMMON_ASSUME),
+                quick=q(6, 6000, 100), thorough=t(6, 30000, 160, 120), assumptions=COMMON_ASSUME),
+    "C18": prog("hist", HIST3, q(5, 8000, 100), t(5, 40000, 160, 120), assumptions=COMMON_ASSUME),
 }
